@@ -320,22 +320,41 @@ fn child_hist(args: &Args) {
                 let cs = fresh
                     .take(1 + rng.usize(5), rng.usize(4), Kind::Event)
                     .expect("HARNESS: pool exhausted");
+                // a third of the scoped closures are futures carrying their collector
+                // (`WithCollector::with_collector`): the scope exists for the duration of a poll
+                let via_future = rng.chance(1, 3);
                 ops.push(format!(
-                    "{}(t{t}, k{c}) emitting op{id}",
-                    if panics { "PanicInScope" } else { "Scoped" }
+                    "{}(t{t}, k{c}{}) emitting op{id}",
+                    if panics { "PanicInScope" } else { "Scoped" },
+                    if via_future { ", one poll of async{..}.with_collector(k)" } else { "" }
                 ));
+                if via_future {
+                    out.count("scopes_entered_by_polling_a_future_with_collector", 1);
+                }
                 let d = ds[c].clone();
                 let emit = cs.emit;
                 let r = workers[t].run(0, move || {
                     let r = std::panic::catch_unwind(std::panic::AssertUnwindSafe(|| {
-                        dispatch::with_default(&d, || {
+                        let body = move || {
                             let _ = emit(id);
                             let w = who();
                             if panics {
                                 std::panic::panic_any(4242u32);
                             }
                             w
-                        })
+                        };
+                        if via_future {
+                            use std::future::Future;
+                            use tracing::instrument::WithCollector;
+                            let mut fut = Box::pin(async move { body() }.with_collector(d));
+                            let mut cx = std::task::Context::from_waker(std::task::Waker::noop());
+                            match fut.as_mut().poll(&mut cx) {
+                                std::task::Poll::Ready(w) => w,
+                                std::task::Poll::Pending => unreachable!("HARNESS: the future never suspends"),
+                            }
+                        } else {
+                            dispatch::with_default(&d, body)
+                        }
                     }));
                     match r {
                         Ok(w) => (w, false),
